@@ -62,6 +62,14 @@ func Float64ListToDecimalIntList(dst []int64, src []float64) ([]int64, int16, er
 		}
 		decimals[i] = scaled
 	}
+	// The decoder restores a value with float64 arithmetic (float64(v) * 10^e or
+	// float64(v) / 10^-e), which is exact only when both v and the power of ten are
+	// exactly representable. Mantissas above 2^53 or exponents beyond 10^22 may come
+	// back 1 ulp off, so verify the round trip and let the caller fall back to a
+	// lossless encoding otherwise.
+	if !decimalIntListRestores(decimals, minExp, src) {
+		return nil, 0, errCannotEncodeLossless
+	}
 	return decimals, minExp, nil
 }
 
@@ -75,20 +83,49 @@ func DecimalIntListToFloat64List(dst []float64, values []int64, exponent int16, 
 	if exponent >= 0 {
 		scale := math.Pow10(int(exponent))
 		for _, v := range values {
-			dst = append(dst, float64(v)*scale)
+			dst = append(dst, scaleUpDecimal(v, scale))
 		}
 	} else {
 		var divisorsBuf [4]float64
 		divisors := computeDivisors(int(-exponent), divisorsBuf[:0])
 		for _, v := range values {
-			result := float64(v)
-			for _, d := range divisors {
-				result /= d
-			}
-			dst = append(dst, result)
+			dst = append(dst, scaleDownDecimal(v, divisors))
 		}
 	}
 	return dst, nil
+}
+
+func scaleUpDecimal(v int64, scale float64) float64 {
+	return float64(v) * scale
+}
+
+func scaleDownDecimal(v int64, divisors []float64) float64 {
+	result := float64(v)
+	for _, d := range divisors {
+		result /= d
+	}
+	return result
+}
+
+// decimalIntListRestores reports whether DecimalIntListToFloat64List restores src exactly from values and exponent.
+func decimalIntListRestores(values []int64, exponent int16, src []float64) bool {
+	if exponent >= 0 {
+		scale := math.Pow10(int(exponent))
+		for i, v := range values {
+			if scaleUpDecimal(v, scale) != src[i] {
+				return false
+			}
+		}
+		return true
+	}
+	var divisorsBuf [4]float64
+	divisors := computeDivisors(int(-exponent), divisorsBuf[:0])
+	for i, v := range values {
+		if scaleDownDecimal(v, divisors) != src[i] {
+			return false
+		}
+	}
+	return true
 }
 
 // computeDivisors splits 10^negExp into chunked float64 divisors to avoid Pow10 overflow.
